@@ -3,8 +3,8 @@ CONSTANTS
  Native = "LITTLE"
  ScalarTypes = {"u8", "i8", "ch", "bool", "i16", "u16", "i32", "u32", "f32", "i64", "u64", "f64"}
  ArrayTypes = {"u8", "i8", "ch", "bool", "i16", "u16", "i32", "u32", "f32", "i64", "u64", "f64"}
- ArrayLens = {0, 1, 3}
- NVals = 2
+ ArrayLens = {0, 1, 2, 3}
+ NVals = 3
  MaxOps = 3
  KeepHist = TRUE
 VIEW View
